@@ -41,13 +41,18 @@
                              [+ (range bracket of knot k) * dE/dr if E is near knot k]
                              [+ 128 ulp(r_k) * dE/dr if range(E) is near the tabulated r_k])
      neighbourhood    "near knot k" = within 128 ulp of x_k (ranks of x_k -/+ 128 ulp supplied)
+     energy loss      monotone in the step up to l + 32 eps E; scope of deviation F-LOSS-2:
+                      -1024 eps E <= loss < 0
    Nothing else is tolerated: inside a bin the value must lie between the neighbouring knot
    brackets, clamps are exact (rank equality), monotonicity is a pure rank statement between
    queries away from knots (see MonoPair).
 
    Known finding F-GRID-1 (UniformGrid::find off by one bin within 1 ulp of a knot) does
    not affect these claims: they are about VALUES, and continuity makes the neighbouring
-   bin's line agree at the knot within the bracket. *)
+   bin's line agree at the knot within the bracket -- with two value-level consequences
+   that ARE visible and are modelled as named, scoped, counted deviations below:
+   NegativeNearKnot (F-XS-1) and ReadPastEnd (F-GRID-1a); two more concern the mean energy
+   loss: LossSwitchDrop (F-LOSS-1) and LossNegativeRounding (F-LOSS-2). *)
 EXTENDS Algorithms
 
 Calcs == {"xs", "eloss", "range", "invrange", "generic"}
